@@ -11,7 +11,8 @@ import re
 import common as C
 from props import progs
 
-HDR = """From QV Require Import Model.Calc.
+HDR = """From Coq Require Import ZArith.
+From QV Require Import Model.Calc.
 Definition show (s : cst nat nat) := (evals s, cfg s, match last_e s with Some e => e | None => 0 end, match cres s with Some e => e | None => 0 end).
 """
 
@@ -112,13 +113,13 @@ def run(res: C.Result):
             last = r["trials"][-1]
             meta.append((k, last["post_evals"], tk(last["post"]["geom12"])))
     got = {}
-    lines = [f"Eval vm_compute in ({j}%nat, {it})." for j, it in enumerate(items)]
+    lines = [f"Eval vm_compute in ({j}%Z, {it})." for j, it in enumerate(items)]
     f = res.workdir / "c04.v"
     f.write_text(HDR + "\n".join(lines) + "\n")
     rc, out, err = C.run_coq_file(f, 1200)
     if rc != 0:
         res.broken("correspondence:coq-evaluation", err[-1500:])
-    for m in re.finditer(r"=\s*\((\d+)(?:%nat)?,\s*(.*?)\)\s*:\s", out, re.S):
+    for m in re.finditer(r"=\s*\((\d+)(?:%\w+)?,\s*(.*?)\)\s*:\s", out, re.S):
         got[int(m.group(1))] = [int(x) for x in re.findall(r"\d+", m.group(2))]
     agree = dis = 0
     for j, (k, evals, gtok) in enumerate(meta):
